@@ -150,8 +150,8 @@ class RowDenoisingTransformer(BaseEstimator, TransformerMixin):
 
         """
         if scipy.sparse.issparse(X):
-            X.eliminate_zeros()
-            if X.nnz == 0:
+            # explicit zeros do not contribute to the column sums: no need to strip them from the caller's matrix
+            if np.count_nonzero(X.data) == 0:
                 warn("Cannot fit an empty matrix")
                 return self
             self.background_model_ = np.squeeze(
